@@ -1,6 +1,7 @@
 /- line-protocol driver for C09 (configuration round-trip) -/
 import QKV.Drv.PyJson
 import QKV.Model.ConfigState
+import QKV.Model.ConfigCallTime
 open Lean QKV QKV.Drv QKV.Py
 
 def instToJson : Except Err Inst → Json
@@ -17,11 +18,12 @@ def formOfString : String → Except String Form
   | "tensor" => pure .tensor | "variable" => pure .variable | "array" => pure .array
   | s => throw s!"unknown form {s}"
 
-def stepOfJson (w : World) (j : Json) : Except String Step := do
+def stepOfJson (w : World) (j : Json) : Except String StepX := do
   match (← getStr j "op") with
-  | "call" => pure .call
-  | "set_trainable" => pure .setTrainable
-  | "update_qnoise" => pure (.updateQnoise (← pyValOfJson (← j.getObjVal? "v")))
+  | "call" => pure (.base .call)
+  | "set_trainable" => pure (.base .setTrainable)
+  | "update_qnoise" => pure (.base (.updateQnoise (← pyValOfJson (← j.getObjVal? "v"))))
+  | "assign" => pure (.assign (← getStr j "k") (← pyValOfJson (← j.getObjVal? "v")))
   | "world" =>
     let sg ← match j.getObjVal? "sigmoid" with
       | .ok v => sigmoidOfString (← v.getStr?)
@@ -29,16 +31,28 @@ def stepOfJson (w : World) (j : Json) : Except String Step := do
     let cl ← match j.getObjVal? "channels_last" with
       | .ok v => v.getBool?
       | .error _ => pure w.channelsLast
-    pure (.world { w with sigmoid := sg, channelsLast := cl })
+    pure (.base (.world { w with sigmoid := sg, channelsLast := cl }))
   | s => throw s!"unknown step {s}"
 
 /-- steps are decoded left to right so that a `world` step only overrides what it names -/
-def stepsOfJson (w : World) : List Json → Except String (List Step)
+def stepsOfJson (w : World) : List Json → Except String (List StepX)
   | [] => pure []
   | j :: t => do
     let st ← stepOfJson w j
-    let w' := match st with | .world x => x | _ => w
+    let w' := match st with | .base (.world x) => x | _ => w
     pure (st :: (← stepsOfJson w' t))
+
+/-- call-time derived quantities of a `quantized_linear` (strengthening round 3) -/
+def derivedToJson (q : Q) : Json :=
+  match q.cls with
+  | .quantized_linear =>
+    let d := linDerived q
+    Json.mkObj [
+      ("clip", match d.clip with
+        | some (a, b) => Json.arr #[ratToJson a, ratToJson b] | none => Json.null),
+      ("data_type_scale", match d.dataTypeScale with | some r => ratToJson r | none => Json.null),
+      ("use_sign_function", Json.bool d.useSign), ("auto_alpha", Json.bool d.autoAlpha)]
+  | _ => Json.null
 
 def formToString : Form → String
   | .literal => "literal" | .npScalar => "np_scalar" | .ndarray => "ndarray"
@@ -64,7 +78,8 @@ def handle (j : Json) : Except String Json := do
                   ("config_keys", Json.arr ((serialised c).map Json.str).toArray),
                   ("dropped", Json.arr ((dropped c).map Json.str).toArray),
                   ("hidden_names", Json.arr ((hiddenNames c).map Json.str).toArray),
-                  ("hidden_reads", Json.arr ((hiddenReads c).map Json.str).toArray)]
+                  ("hidden_reads", Json.arr ((hiddenReads c).map Json.str).toArray),
+                  ("assignable", Json.arr ((assignable c).map Json.str).toArray)]
     pure <| Json.mkObj [("registry", Json.arr (registeredNames.map Json.str).toArray),
                         ("classes", Json.arr cls.toArray)]
   | "lookup" =>
@@ -120,7 +135,7 @@ def handle (j : Json) : Except String Json := do
     match constructI w0 c [] kw with
     | .error e => pure <| Json.mkObj [("construct", Json.mkObj [("err", Json.str e.tag)])]
     | .ok i0 =>
-      let s := runHistory (w0, i0) steps
+      let s := runHistoryX (w0, i0) steps
       let cfg := getConfig s.2.q
       let r1 := fromConfigI s.1 s.2.q.cls cfg
       let r2 := getQuantizerDictI s.1 (serialize s.2.q)
@@ -128,7 +143,9 @@ def handle (j : Json) : Except String Json := do
       pure <| Json.mkObj [("construct", instToJson (.ok i0)), ("after", instToJson (.ok s.2)),
         ("config", envToJson cfg), ("from_config", instToJson r1), ("get_quantizer", instToJson r2),
         ("config_rebuilt", cfg2), ("reads_sigmoid", Json.bool (readsSigmoid s.2.q)),
-        ("sigmoid", Json.str s.1.sigmoid.name)]
+        ("sigmoid", Json.str s.1.sigmoid.name),
+        ("derived0", derivedToJson i0.q), ("derived", derivedToJson s.2.q),
+        ("derived_rebuilt", match r1 with | .ok i' => derivedToJson i'.q | .error _ => Json.null)]
   | "keras_forms" =>
     let c ← clsOfJson j "cls"
     let a ← (← j.getObjVal? "stored").getArr?
